@@ -1139,6 +1139,15 @@ size_t ZSTD_decompressMultiFrame(ZSTD_DCtx* dctx,
 
         if (ddict) {
             /* we were called from ZSTD_decompress_usingDDict */
+            if (dctx->refMultipleDDicts == ZSTD_rmd_refMultipleDDicts && dctx->ddictSet) {
+                /* the DDict requested by the frame must be the one that gets loaded :
+                 * select it here, ZSTD_decodeFrameHeader() only updates the reference */
+                ZSTD_frameHeader zfh;
+                if (ZSTD_getFrameHeader_advanced(&zfh, src, srcSize, dctx->format) == 0) {
+                    const ZSTD_DDict* const frameDDict = ZSTD_DDictHashSet_getDDict(dctx->ddictSet, zfh.dictID);
+                    if (frameDDict) ddict = frameDDict;
+                }
+            }
             FORWARD_IF_ERROR(ZSTD_decompressBegin_usingDDict(dctx, ddict), "");
         } else {
             /* this will initialize correctly with no dict if dict == NULL, so
